@@ -204,6 +204,8 @@ type Case struct {
 	Spec   *NSpec   `json:"spec,omitempty"`
 	Chunks []*V     `json:"chunks"`
 	Nil    *NilSpec `json:"nil,omitempty"` // kind nilout: a nil result of an interface-typed node (direct oracle only)
+	// kind scalar: int chunks, which concatenate to the last one (direct oracle only)
+	Scalar *ScalarSpec `json:"scalar,omitempty"`
 	// a second input (same keys, other strings, another chunking) for the same compiled object
 	Chunks2 []*V   `json:"chunks2,omitempty"`
 	Inject  string `json:"inject,omitempty"` // "", dupkey, nokey, fmkey: deliberate out-of-domain construction
@@ -414,6 +416,9 @@ func (engine) Decode(raw json.RawMessage) (any, error) {
 	if c.Kind == "nilout" && c.Nil != nil {
 		return &c, nil
 	}
+	if c.Kind == "scalar" && c.Scalar != nil && len(c.Scalar.Out) > 0 && (c.Scalar.Shape != 4 || len(c.Scalar.In) > 0) {
+		return &c, nil
+	}
 	if c.Kind == "prog" && c.Prog == nil || c.Kind == "pack" && c.Spec == nil || len(c.Chunks) == 0 {
 		return nil, fmt.Errorf("incomplete case")
 	}
@@ -559,6 +564,9 @@ func (engine) Run(ci any) lib.Result {
 	c := ci.(*Case)
 	if c.Kind == "nilout" {
 		return runNil(c)
+	}
+	if c.Kind == "scalar" {
+		return runScalar(c)
 	}
 	res := lib.Result{}
 	rec := &recorder{}
